@@ -45,7 +45,9 @@ def run(ctx):
     samples = []
     for maxv in (["v4", "v5", "v3", "DSEv2"] if t else ["v4", "v5"]):
         out = ctx.path("hostile_%s.json" % maxv)
-        ctx.drv(["hostile", "-bin", binp, "-in", path, "-out", out, "-maxversion", maxv, "-reps", "3" if t else "2"], timeout=3000)
+        # frequent heartbeats heal (and hide) a stalled backend connection within their interval: the v5 run uses slow ones
+        hb = ["-heartbeat", "6s", "-idle", "30s"] if maxv == "v5" else []
+        ctx.drv(["hostile", "-bin", binp, "-in", path, "-out", out, "-maxversion", maxv, "-reps", "3" if t else "2"] + hb, timeout=3000)
         r = json.load(open(out))
         for k in total:
             total[k] += r[k]
